@@ -32,6 +32,7 @@ fn short(name: &str) -> String {
 }
 
 pub fn run(args: &Args) {
+    crate::case::install_panic_hook();
     let prop = args.get("prop").to_string();
     let seed = args.seed();
     let thorough = args.opt("tier") == Some("thorough");
@@ -39,6 +40,9 @@ pub fn run(args: &Args) {
     let mut stats = std::collections::BTreeMap::<String, u64>::new();
     let rounds = args.num("rounds", 1);
     for base in load_cases(args.opt("fixtures")) {
+        if base.is_byron() && matches!(prop.as_str(), "C35" | "C36" | "C37") {
+            continue; // these properties are stated for the post-Byron eras
+        }
         let fx = short(&base.name);
         let o = base.run();
         *stats.entry(format!("base-{}", o.verdict)).or_default() += 1;
@@ -50,7 +54,7 @@ pub fn run(args: &Args) {
         let sdh_base = base_t["sdh"].clone();
         base_t["sdhBase"] = sdh_base.clone();
         base_t["scriptDataSame"] = json!(true);
-        log.ev(json!({"ev": "base", "fx": fx, "era": base.era, "mut": "none", "rule": "", "boundary": false,
+        log.ev(json!({"ev": "base", "seq": log.lines + 1, "fx": fx, "era": base.era, "mut": "none", "rule": "", "boundary": false,
                       "verdict": o.verdict, "detail": o.detail, "T": base_t}));
         let script_data = script_data_bytes(&base);
         for round in 0..rounds {
@@ -73,7 +77,7 @@ pub fn run(args: &Args) {
                 let mut t = o.proj;
                 t["sdhBase"] = sdh_base.clone();
                 t["scriptDataSame"] = json!(script_data_bytes(&mu.case) == script_data);
-                log.ev(json!({"ev": "tx", "fx": fx, "era": mu.case.era, "mut": mu.class, "rule": mu.rule, "boundary": mu.boundary,
+                log.ev(json!({"ev": "tx", "seq": log.lines + 1, "fx": fx, "era": mu.case.era, "mut": mu.class, "rule": mu.rule, "boundary": mu.boundary,
                               "verdict": o.verdict, "detail": o.detail.chars().take(160).collect::<String>(), "T": t}));
             }
         }
